@@ -379,10 +379,14 @@ def _add_zid_to_line(zid: str, line: str) -> str:
 
     # Remove a YYYY-MM-DD create date if one existed prior to adding a ZID to
     # the note.
+    line_ending = ""
     if words and zdt.is_long_date_spec(words[0].rstrip("\r")):
-        words.pop(0)
+        # The date may be the last word of a line that ends in \r\n; the \r
+        # is part of the line break and stays.
+        if words.pop(0).endswith("\r"):
+            line_ending = "\r"
 
-    return f"{line_before_zid}{zid} {' '.join(words)}"
+    return f"{line_before_zid}{zid} {' '.join(words)}{line_ending}"
 
 
 def _hash_file(filepath: Path, chunk_size: int = 8192) -> str:
